@@ -164,6 +164,14 @@ theorem c11_methods : Gen.Locks.methods.map (·.1) =
     [c!"Close", c!"List", c!"Forward", c!"AddHardCert", c!"Sign", c!"SignWithFlags", c!"Add", c!"Remove",
      c!"RemoveAll", c!"Lock", c!"Unlock", c!"Signers", c!"Extension"] := by decide
 
+/-- `Signers` hands its caller objects that sign later, outside the method and its lock. Every one
+    of them (regenerated from the `append`s to the returned slice) reaches the underlying agent only
+    through the shim — its agent field is the `Server` itself — so that signing with it is the
+    method `Sign` / `SignWithFlags` of the table above and takes the exclusive lock; none holds the
+    agent client or the connection (finding F12: the client's own signers were passed on). -/
+theorem c11_signers_routed :
+    Gen.Locks.signerSources ≠ [] ∧ Gen.Locks.signerSources.all (·.2) = true := by decide
+
 /-! ### every operation completes (in the lock model: no operation can be blocked for ever) -/
 
 /-- scheduling steps a thread still needs -/
